@@ -248,6 +248,24 @@ class Extractor {
       Fs.push_back(std::move(FO));
     }
     O["fields"] = std::move(Fs);
+    // static constexpr data members with integral values (WIRE_TYPE, capacities, ...)
+    json::Object Cs;
+    for (auto* D : RD->decls()) {
+      if (auto* VD = dyn_cast<VarDecl>(D)) {
+        if (!VD->isStaticDataMember()) continue;
+        const VarDecl* Def = VD;
+        if (!VD->getType()->isIntegralOrEnumerationType()) continue;
+        const Expr* Init = VD->getAnyInitializer(Def);
+        if (!Init || Init->isValueDependent()) continue;
+        Expr::EvalResult R;
+        if (Init->EvaluateAsInt(R, Ctx)) {
+          llvm::SmallString<32> S;
+          R.Val.getInt().toString(S, 10);
+          Cs[VD->getNameAsString()] = std::string(S.str());
+        }
+      }
+    }
+    O["consts"] = std::move(Cs);
     json::Array Bs;
     for (auto& B : RD->bases()) {
       json::Object BO;
@@ -338,6 +356,8 @@ class Extractor {
         N = CE->getSubExpr();
       } else if (auto* SN = dyn_cast<SubstNonTypeTemplateParmExpr>(N)) {
         N = SN->getReplacement();
+      } else if (auto* RW = dyn_cast<CXXRewrittenBinaryOperator>(N)) {
+        N = RW->getSemanticForm();
       }
       if (N == E) break;
       E = N;
